@@ -625,7 +625,11 @@ class Interp:
         if op == 'Sub': return z3.fpSub(rm, A, B)
         if op == 'Mul': return z3.fpMul(rm, A, B)
         if op == 'Div': return z3.fpDiv(rm, A, B)
-        if op == 'Rem': raise Unsupported('symbolic float remainder')
+        if op == 'Rem':
+            if getattr(s.prog, 'opaque_float_math', False):
+                s.fresh_n += 1
+                return z3.FP('frem_%d_%d' % (len(s.taken), s.fresh_n), z3.Float64())
+            raise Unsupported('symbolic float remainder')
         if op == 'Lt': return z3.fpLT(A, B)
         if op == 'Le': return z3.fpLEQ(A, B)
         if op == 'Gt': return z3.fpGT(A, B)
